@@ -282,6 +282,31 @@ bool Hist::opSelfFrame() {
     return true;
 }
 
+// Re-rating a filled data set the consistent way: ANALOG:RATE is changed to another multiple of POINT:RATE and EVERY frame is then replaced by
+// one with the new number of sub-frames.  The intermediate states are not judged (mixed sub-frame counts); the final one is (C05 now, C01 at the next save).
+bool Hist::opReRate() {
+    size_t n = prev.frames.size(); if (wild || n == 0 || n > 8 || hasGaps(prev) || !subsUniform(prev) || offSpec || fileOffSpec) return false;
+    long aused = int0(prev, "ANALOG", "USED"); float pr = float0(prev, "POINT", "RATE"); size_t s = prev.h.sub;
+    if (aused < 1 || pr == 0.f || s < 1) return false;
+    size_t s2 = (size_t)rng.range(1, 6); if (s2 == s) s2 = s + 1;
+    Param p("RATE"); p.set(std::vector<float>(1, pr * (float)s2)); p.lock();
+    log.pre("parameter", "rerate"); Outcome oc; VF_TRY(oc, obj->parameter("ANALOG", p));
+    log.ev("rerate_set_analog_rate", "sub " + std::to_string((unsigned long long)s) + " -> " + std::to_string((unsigned long long)s2), oc); bump("op:rerate");
+    if (oc.threw) { log.viol("C09", "param/valid_refused/rerate/" + oc.cls, oc.what); prev = take(*obj); return true; }
+    prev = take(*obj);
+    for (size_t i = 0; i < n; ++i) {
+        std::string dn; SFrame want; Frame fr = buildFrame(0, &dn, &want, (int)s2);
+        log.pre("frame", "rerate"); Outcome fo; VF_TRY(fo, obj->frame(fr, i));
+        log.ev("rerate_replace_frame", "idx=" + std::to_string((unsigned long long)i) + " " + frameSig(want), fo);
+        if (fo.threw) { log.viol("C07", "frame/valid_refused/rerate/" + fo.cls, "replacing frame " + std::to_string((unsigned long long)i) + " with the re-rated shape was refused: " + fo.what); prev = take(*obj); offSpec = true; return true; }
+        Snap cur = take(*obj);
+        if (i < cur.frames.size() && cur.frames[i] != want) log.viol("C06", "frame/target_content/rerate", "frame " + std::to_string((unsigned long long)i) + " does not hold the re-rated content");
+        prev = cur;
+    }
+    checkC05(prev, "rerate_done");
+    return true;
+}
+
 bool Hist::opDeclarePoint() {
     std::vector<std::string> labels = labelsOf(prev, "POINT");
     size_t n = prev.frames.size();
